@@ -70,6 +70,18 @@ for _pid, _what in [
         technique="Coq invariant proof over an executable model + model/implementation correspondence + trace monitor",
         ref="5/C03-C06-C07-C11")
 
+CHECKS["C02"] = dict(
+    text="Machine-checked invariant proof (Coq) over the header/block synchronisation model: for every message "
+         "sequence of an arbitrary (hostile) peer over a block tree, with process steps placed anywhere, the stored "
+         "chain starts at genesis, is parent-linked and duplicate free, blocks are only added on top of the tip and "
+         "announced at tip+1, reverts never go below genesis (props/C02.v; the executable monitor never objects to the "
+         "model's trace). Correspondence check drives the real handler map and real ProcessBlock on generated trees "
+         "and compares every digest (computed from the real BlockRepository queries) and announcement.",
+    note="Trusted: Coq kernel; hand-written model Sync.v/Requests.v validated by correspondence; block repository through "
+         "its abstract interface (C09); ids of a block tree stand for collision-free hashes; handler calls atomic.",
+    technique="Coq invariant proof + model/implementation correspondence + trace monitor",
+    ref="5/C02")
+
 NOT_APPLICABLE = {}
 
 
